@@ -73,6 +73,36 @@ TEXT = {
              "10^6 s deadline. The property's exhaustive lock-step model is another technique and is not claimed.",
         note="Sampled schedules, not all interleavings; trusts the H4 probes (recorded under the control's own mutex) and Miri's scheduler.",
         ref="DESIGN.md §4 C12"),
+    "C04": dict(
+        technique="runtime monitor over recorded call histories: scripted fake server enumerating reply orders, unique tokens, probe-perturbed interleavings",
+        text="Runtime monitoring: clones of one real client (blocking, async, WebSocket) issue concurrent calls and batches against a scripted raw "
+             "fake server that answers in a chosen order: all 720 permutations for 6 concurrent calls on each client kind and mode, random orders up "
+             "to 64 calls, with unknown-id, duplicate and (WebSocket) in-flight-id notify frames injected. Every response carries the unique token of "
+             "its request; an offline oracle checks own-response, batch alignment, id distinctness and subscriber-only notify delivery. verif-hooks "
+             "probes inject seeded delays and the number of distinct probe-event interleavings observed is reported. The model-checked interleaving "
+             "clause of the quantifier is another technique and is not claimed.",
+        note="Interleavings are sampled, not enumerated; trusts the fake server and oracle in harness/src/c04.rs.",
+        ref="DESIGN.md §4 C04"),
+    "C07": dict(
+        technique="differential runtime monitor across dispatch paths, enumeration of registration orders, independent RFC 6901 tokenizer; Miri",
+        text="Runtime monitoring in-process through Router::get: for 12 handler kinds x body-format codes x generated bodies the owned, "
+             "context and borrowed entry points and the same route behind 1 and 2 forwarding middlewares must give the same normalised "
+             "response and the same handler arguments; all 120 registration orders of {route, registry mount, struct mount, 2 middlewares} "
+             "are executed (middleware exactly once per dispatch, exact route beats prefix); prefix/path boundary pairs; a recording RepeStruct "
+             "compared with an independent RFC 6901 tokenizer for depths 0..40 including the 16/17 stack/heap boundary.",
+        note="Trusts the normalisation (documented query-echo rule) and tokenizer in harness/src/c07.rs; malformed escapes and trailing-slash struct roots not generated.",
+        ref="DESIGN.md §4 C07"),
+    "C08": dict(
+        technique="differential runtime monitor (bulk vs generic codec, streaming vs buffered, address-observing borrowing route); Miri and valgrind memcheck on the unsafe/FFI paths",
+        text="Runtime monitoring: for 12 numeric element types and complex pairs, vectors of bit-pattern values (NaN payloads, infinities, "
+             "subnormals, integer extremes) of lengths 0..4096 and up to 10^6 are encoded by the bulk and the generic encoder and decoded by both "
+             "decoders (compared as bits, empty slice included), streaming writers are compared with buffered frames, and the alignment-padded "
+             "form is delivered to a borrowing route at every query length 0..64 and base misalignment 0..7 while the handler records the address "
+             "it was given (borrowed iff aligned; padding correct when the frame is aligned); wrong type/format must be rejected. The same over "
+             "sockets (Server, AsyncServer x bulk/aligned/generic clients). Miri interprets the in-process part (this is the workload that reaches "
+             "beve's unsafe code); memcheck runs the socket part in the thorough tier. Found and fixed D6.",
+        note="Miri's -Zmiri-symbolic-alignment-check is not used: it rejects the runtime address check beve legitimately performs (false alarm).",
+        ref="DESIGN.md §4 C08"),
 }
 
 ALL = [f"C{i:02d}" for i in range(1, 20)]
